@@ -800,6 +800,8 @@ class UnitDatabase(Singleton):
             raise RuntimeError("Unit already registered: {} ({})".format(name, unit))
 
         quantity_type_list.append(info)
+        # A unit that was looked up before being registered was memoised as invalid for its category.
+        self._category_unit_valid.clear()
 
     def AddUnitBase(self, quantity_type: str, name: str, unit: str) -> None:
         """
